@@ -1,0 +1,237 @@
+//! Verification hooks. Compiled only with `--cfg nomt_verif`; without it this module does not
+//! exist and no call site is compiled.
+//!
+//! Nothing here changes behaviour unless a callback is installed with [`install`]: every hook
+//! is a no-op returning `Ok(())` then.
+
+#![allow(missing_docs)]
+
+use std::os::fd::RawFd;
+use std::path::Path;
+use std::sync::atomic::{AtomicBool, AtomicU64, Ordering};
+use std::sync::{Arc, Mutex, RwLock};
+
+/// The kind of a mutating file operation.
+#[derive(Clone, Copy, Debug, PartialEq, Eq)]
+pub enum Kind {
+    /// positional write (`write_all_at`): offset/len in bytes.
+    WriteAt,
+    /// write at the current position of an append-style stream (`write_all`).
+    Append,
+    /// `set_len`: `len` is the new length.
+    SetLen,
+    /// `sync_all` / `sync_data` of a file.
+    Fsync,
+    /// `sync_all` / `sync_data` of the directory.
+    DirSync,
+    /// `remove_file`.
+    Unlink,
+    /// creation of a new file.
+    Create,
+    /// a page write handed to the I/O pool (io_uring): offset is the page number.
+    Submit,
+    /// completion of such a write.
+    Complete,
+    /// the directory lock was acquired.
+    Lock,
+    /// the directory lock is about to be released.
+    Unlock,
+}
+
+#[derive(Clone, Copy, Debug, PartialEq, Eq)]
+pub enum Phase {
+    Begin,
+    End,
+}
+
+/// What the hook reports.
+pub struct Event<'a> {
+    /// global sequence number, taken under the hook's mutex.
+    pub seq: u64,
+    pub kind: Kind,
+    pub phase: Phase,
+    pub fd: RawFd,
+    pub path: Option<&'a Path>,
+    pub offset: u64,
+    pub len: u64,
+    pub data: Option<&'a [u8]>,
+    /// for `Phase::End`: whether the operation succeeded.
+    pub ok: bool,
+}
+
+pub enum Decision {
+    Proceed,
+    /// the operation is not performed; the call site sees this OS error.
+    Fail(i32),
+}
+
+pub type Callback = dyn Fn(&Event) -> Decision + Send + Sync;
+
+static ACTIVE: AtomicBool = AtomicBool::new(false);
+static SEQ: AtomicU64 = AtomicU64::new(0);
+static CALLBACK: RwLock<Option<Arc<Callback>>> = RwLock::new(None);
+static ORDER: Mutex<()> = Mutex::new(());
+static SEGMENT_SIZE: AtomicU64 = AtomicU64::new(0);
+
+/// Install (or remove) the I/O callback.
+pub fn install(cb: Option<Arc<Callback>>) {
+    let mut g = CALLBACK.write().unwrap_or_else(|e| e.into_inner());
+    ACTIVE.store(cb.is_some(), Ordering::SeqCst);
+    *g = cb;
+}
+
+fn dispatch(
+    kind: Kind,
+    phase: Phase,
+    fd: RawFd,
+    path: Option<&Path>,
+    offset: u64,
+    len: u64,
+    data: Option<&[u8]>,
+    ok: bool,
+) -> std::io::Result<()> {
+    if !ACTIVE.load(Ordering::Relaxed) {
+        return Ok(());
+    }
+    let cb = CALLBACK.read().unwrap_or_else(|e| e.into_inner()).clone();
+    let Some(cb) = cb else { return Ok(()) };
+    let _order = ORDER.lock().unwrap_or_else(|e| e.into_inner());
+    let seq = SEQ.fetch_add(1, Ordering::SeqCst);
+    let ev = Event {
+        seq,
+        kind,
+        phase,
+        fd,
+        path,
+        offset,
+        len,
+        data,
+        ok,
+    };
+    match cb(&ev) {
+        Decision::Proceed => Ok(()),
+        Decision::Fail(errno) => Err(std::io::Error::from_raw_os_error(errno)),
+    }
+}
+
+/// Called immediately before a mutating operation on an open file.
+pub fn pre(kind: Kind, fd: RawFd, offset: u64, len: u64, data: Option<&[u8]>) -> std::io::Result<()> {
+    dispatch(kind, Phase::Begin, fd, None, offset, len, data, true)
+}
+
+/// Called immediately after the operation succeeded.
+pub fn post(kind: Kind, fd: RawFd) {
+    let _ = dispatch(kind, Phase::End, fd, None, 0, 0, None, true);
+}
+
+/// Called immediately before a mutating operation on a path.
+pub fn pre_path(kind: Kind, path: &Path) -> std::io::Result<()> {
+    dispatch(kind, Phase::Begin, -1, Some(path), 0, 0, None, true)
+}
+
+/// Called immediately after the path operation succeeded.
+pub fn post_path(kind: Kind, path: &Path) {
+    let _ = dispatch(kind, Phase::End, -1, Some(path), 0, 0, None, true);
+}
+
+/// For operations whose result is not propagated with `?`: an injected failure replaces the
+/// real result.
+pub fn merge(pre: std::io::Result<()>, real: std::io::Result<()>) -> std::io::Result<()> {
+    match pre {
+        Err(e) => Err(e),
+        Ok(()) => real,
+    }
+}
+
+/// Page writes handed to the I/O pool. Returns `None` when the write was failed by the callback:
+/// the completion carrying the error has then already been posted to `completion_sender`.
+pub(crate) fn on_submit(
+    command: crate::io::IoCommand,
+    completion_sender: &crossbeam_channel::Sender<crate::io::CompleteIo>,
+) -> Option<crate::io::IoCommand> {
+    if !ACTIVE.load(Ordering::Relaxed) {
+        return Some(command);
+    }
+    let res = match &command.kind {
+        crate::io::IoKind::Read(..) => Ok(()),
+        crate::io::IoKind::Write(fd, pn, page) => {
+            dispatch(Kind::Submit, Phase::Begin, *fd, None, *pn, 1, Some(&page[..]), true)
+        }
+        crate::io::IoKind::WriteArc(fd, pn, page) => {
+            dispatch(Kind::Submit, Phase::Begin, *fd, None, *pn, 1, Some(&page[..]), true)
+        }
+        crate::io::IoKind::WriteRaw(fd, pn, page) => {
+            // SAFETY: the page is owned by the command and not written concurrently.
+            let data = unsafe { std::slice::from_raw_parts(page.as_ptr(), crate::io::PAGE_SIZE) };
+            dispatch(Kind::Submit, Phase::Begin, *fd, None, *pn, 1, Some(data), true)
+        }
+    };
+    match res {
+        Ok(()) => Some(command),
+        Err(e) => {
+            let _ = completion_sender.send(crate::io::CompleteIo {
+                command,
+                result: Err(e),
+            });
+            None
+        }
+    }
+}
+
+/// Completion of an I/O pool command (called before it is delivered).
+pub(crate) fn on_complete(complete: &crate::io::CompleteIo) {
+    if !ACTIVE.load(Ordering::Relaxed) {
+        return;
+    }
+    let (fd, pn) = match &complete.command.kind {
+        crate::io::IoKind::Read(..) => return,
+        crate::io::IoKind::Write(fd, pn, _)
+        | crate::io::IoKind::WriteArc(fd, pn, _)
+        | crate::io::IoKind::WriteRaw(fd, pn, _) => (*fd, *pn),
+    };
+    let _ = dispatch(
+        Kind::Complete,
+        Phase::End,
+        fd,
+        None,
+        pn,
+        1,
+        None,
+        complete.result.is_ok(),
+    );
+}
+
+/// Override of the rollback log's maximum segment size (0 = keep the built-in constant).
+pub fn set_segment_size(bytes: u64) {
+    SEGMENT_SIZE.store(bytes, Ordering::SeqCst);
+}
+
+pub fn segment_size(default: u64) -> u64 {
+    match SEGMENT_SIZE.load(Ordering::SeqCst) {
+        0 => default,
+        n => n,
+    }
+}
+
+pub type PointCallback = dyn Fn(&str, &str) + Send + Sync;
+static POINT_ACTIVE: AtomicBool = AtomicBool::new(false);
+static POINT: RwLock<Option<Arc<PointCallback>>> = RwLock::new(None);
+
+/// Install (or remove) the callback for yield points and linearisation events.
+pub fn install_points(cb: Option<Arc<PointCallback>>) {
+    let mut g = POINT.write().unwrap_or_else(|e| e.into_inner());
+    POINT_ACTIVE.store(cb.is_some(), Ordering::SeqCst);
+    *g = cb;
+}
+
+/// A schedule diversification point (before a lock acquisition) or a linearisation event (while
+/// the protecting lock is held). `class` is "yield" or "lin".
+pub fn point(class: &str, name: &str) {
+    if !POINT_ACTIVE.load(Ordering::Relaxed) {
+        return;
+    }
+    let cb = POINT.read().unwrap_or_else(|e| e.into_inner()).clone();
+    if let Some(cb) = cb {
+        cb(class, name);
+    }
+}
